@@ -70,7 +70,7 @@ def _run_chunk(args):
         case = None
         try:
             signal.alarm(per_run_timeout)
-            case = spec.make_case(seed, tier)
+            case = spec.get_case(seed, tier)
             res = spec.execute(case)
             signal.alarm(0)
             s = summarize(spec, case, res, tier)
